@@ -10,7 +10,7 @@
      internal/queuebatch/default_batcher.go (Consume, flushCurrentBatchIfNecessary, Shutdown, refCountDone,
         multiDone), disabled_batcher.go, BatchConfig.Validate                            -> section Batcher
    The model is faithful to the pinned tree INCLUDING its defects (F4: metric identity dropped by
-   extract*DataPoints; F5: bytes split never terminates when a record does not fit; F12: the profiles
+   extract*DataPoints; F5: bytes split never terminates when a record does not fit; C04-PROFUNIT: the profiles
    count sizer measures a request in samples but extracts in profiles).
    No proofs in this file. *)
 From Verif Require Import Common.Base.
@@ -411,7 +411,8 @@ Section Batcher.
     match b_cur st with
     | None =>
       match msplit r None with
-      | None | Some [] => fire st [DReq i] true        (* done.OnDone(mergeSplitErr) *)
+      | None => fire st [DReq i] true                  (* done.OnDone(mergeSplitErr) *)
+      | Some [] => fire st [DReq i] false              (* len(reqList) == 0 with a nil error: OnDone(nil) *)
       | Some rs =>
         let '(st1, d) := wrap_done st i (length rs) in
         let '(rs', st2) := park_last st1 rs d in
@@ -419,7 +420,8 @@ Section Batcher.
       end
     | Some (cur, cds) =>
       match msplit cur (Some r) with
-      | None | Some [] => fire st [DReq i] true        (* the current batch is kept as it is *)
+      | None => fire st [DReq i] true                  (* the current batch is kept as it is *)
+      | Some [] => fire st [DReq i] false
       | Some (r0 :: rest) =>
         let '(st1, d) := wrap_done st i (S (length rest)) in
         let cds' := cds ++ [d] in
